@@ -46,11 +46,11 @@ CHECKS = {
    note="'Follows the model density' and the all-seeds statistical statements are decided only through their algebraic sufficient conditions under owned random numbers; no statistical test is run.",
    technique="explicit-state exploration of the sampler loop with an owned environment (all menu sequences to a depth) + bounded-exhaustive lattices"),
  "C06": dict(level="exploration", ref="4-C06",
-   text="Product enumeration: 10 likelihood models selectable by configuration (default, extended, cfit, cfit+cached_amp, cfit+extended, cached_int, cached_amp, simple, simple_clip, simple_cfit) x weight patterns for data/phase space/background (absent, positive, mixed signs, for the phase-space sample as well; quick: orthogonal array L9, thorough: full product) x background sample none / unweighted (-w_bkg) / own weights x batch sizes incl. non-dividing x 1 or 2 simultaneous data sets with different w_bkg x Gaussian constraint x parameter points; all three value paths (fcn(x), nll_grad[0], nll_grad_hessian[0]) against the defining formula in numpy; rescaling invariance; histories of get_fcn over three different samples on one ConfigLoader (id-keyed / lru caches).",
+   text="Product enumeration: 10 likelihood models selectable by configuration (default, extended, cfit, cfit+cached_amp, cfit+extended, cached_int, cached_amp, simple, simple_clip, simple_cfit) x weight patterns for data/phase space/background (absent, positive, mixed signs, for the phase-space sample as well; quick: orthogonal array L9, thorough: full product) x background sample none / unweighted (-w_bkg) / own weights x batch sizes incl. non-dividing x 1 or 2 simultaneous data sets with different w_bkg x Gaussian constraint x parameter points, unit weights with w_bkg = 1 in batches of even size (exactly cancelling weights); all three value paths (fcn(x), nll_grad[0], nll_grad_hessian[0]) against the defining formula in numpy; rescaling invariance; histories of get_fcn over three different samples on one ConfigLoader (id-keyed / lru caches).",
    note="The density is taken from the library's eager unbatched pdf (C01-C05 cover it). Events above the clip threshold. inject_mc excluded by the statement.",
    technique="bounded-exhaustive product enumeration of likelihood configurations + explicit histories, numpy reference formula"),
  "C07": dict(level="exploration", ref="4-C07",
-   text="For every model of C06 x floating/constraint scenario (couplings; mass+width with Gaussian constraint; mass with a fixed and a tied coupling; width with two constraints) x batch sizes x points (+ two simultaneous data sets sharing a constraint): nll_grad, nll_grad_hessian and grad_hessp (unit, ones and ramp direction vectors) against automatic differentiation (nested tapes) of the stand-alone value the object reports, the gradient in addition against Richardson-extrapolated central differences of that value along two directions (AD is blind to a detached sub-expression), and every method again after a call at another parameter point; the three bound-transformation wrappers for two-sided, lower, upper, custom-expression and mixed bounds on an exact quadratic and on the real NLL against the chain rule with y', y'' from 40-digit mpmath differentiation.",
+   text="For every model of C06 x floating/constraint scenario (couplings; mass+width with Gaussian constraint; mass with a fixed and a tied coupling; width with two constraints) x batch sizes x points (+ two simultaneous data sets sharing a constraint): nll_grad, nll_grad_hessian and grad_hessp (unit, ones and ramp direction vectors) against automatic differentiation (nested tapes) of the stand-alone value the object reports, the gradient in addition against Richardson-extrapolated central differences of that value along two directions (AD is blind to a detached sub-expression), every method again after a call at another parameter point, and after the free-parameter list was reordered at equal length (fix + free of one parameter); the three bound-transformation wrappers for two-sided, lower, upper, custom-expression and mixed bounds on an exact quadratic and on the real NLL against the chain rule with y', y'' from 40-digit mpmath differentiation.",
    note="Trusted base: TensorFlow reverse-mode AD of the value path; mpmath differentiation. Interior points; cached integrals with fixed line shapes only.",
    technique="bounded-exhaustive enumeration of (model, scenario, batch, direction) with an AD-of-value derivative oracle"),
  "C08": dict(level="exploration", ref="4-C08",
@@ -82,7 +82,7 @@ CHECKS = {
    note="First-order propagation; reflected operators the class does not implement are counted as not offered; A2 needs a positive-definite Hessian (obtained by converging first).",
    technique="bounded-exhaustive enumeration of operators / operand patterns / derived quantities with AD and mpmath Jacobian oracles"),
  "C19": dict(level="exploration", ref="4-C19",
-   text="(a) Explicit exploration of load histories: every sequence of 2 (quick) / 3 (thorough) loads over five cards that share particle names but differ in spins, candidate lists and options, in one process with the same dict objects reused; the full model signature (chains with quantum numbers and (l,s) lists, variable names, trainable set, ties, bounds, Gaussian constraints, fixed line-shape values, density on probe events with parameters set by name) must equal that of the card loaded first in a fresh interpreter, and the caller's dict must not be modified. (b,c,e) A grammar of generated cards (resonance spin-parities x candidate lists x per-decay options p_break / l_list, three- and four-body): kept chains = reference chain expansion filtered by the C13 reference (l,s) rules, declared top and finals, as_config() -> load reproduces chains and quantum numbers. (d') $include by file path: every ordered pair (thorough: triple) of cards that include the same file with and without local overrides, in one process. (d) Aliases (Par, m0, g0, bw), $include (plain, list, with overrides in the same and in the other alias spelling), candidate lists, and key-order permutations of the particle and decay sections equal their expanded form.",
+   text="(a) Explicit exploration of load histories: every sequence of 2 (quick) / 3 (thorough) loads over five cards that share particle names but differ in spins, candidate lists and options, in one process with the same dict objects reused; the full model signature (chains with quantum numbers and (l,s) lists, variable names, trainable set, ties, bounds, Gaussian constraints, fixed line-shape values, density on probe events with parameters set by name) must equal that of the card loaded first in a fresh interpreter, and the caller's dict must not be modified. (b,c,e) A grammar of generated cards (resonance spin-parities x candidate lists x per-decay options p_break / l_list, three- and four-body): kept chains = reference chain expansion filtered by the C13 reference (l,s) rules, declared top and finals, as_config() -> load reproduces chains and quantum numbers. (d'') key order of the constrains section with interacting sections (tie with a fixed non-head member, bound + Gaussian constraint, freed parameter); particle-level decay_params next to a per-decay option. (d') $include by file path: every ordered pair (thorough: triple) of cards that include the same file with and without local overrides, in one process. (d) Aliases (Par, m0, g0, bw), $include (plain, list, with overrides in the same and in the other alias spelling), candidate lists, and key-order permutations of the particle and decay sections equal their expanded form.",
    note="Fresh-process references are computed in separate interpreters, once per card.",
    technique="explicit-state exploration of load histories with a fresh-process differential oracle + bounded-exhaustive card grammar against a reference expansion"),
 }
